@@ -58,7 +58,7 @@ PROVED = {
     "C01": "the extracted priority / drop-list / type / *of / site / error facts equal the documented ones (vm_compute on the record re-read from the source); the code-shaped rule queue (pop(0), remove) evaluates exactly the rules of the declarative skip-set reading, for every duplicate-free queue and arbitrary handlers; verdict iff no errors. PARTIAL: equality with the reference interpreter on all inputs is the differential run, the Spec being the same model at documented constants.",
     "C02": "the extracted pipeline is the documented step order with its guards; a failing coercer keeps the value, files its error at the field's path and stops the chain; unknown-field rules never touch schema fields; items of the wrong length are not normalized.",
     "C03": "every leaf rule handler returns normally for EVERY value (any nesting, unhashable members) given a constraint of the declared shape; filing an error succeeds whenever the field's resolved rule set holds the rule. PARTIAL: the recursive skeleton and normalization are decided by the oracle and the diffed exception behaviour.",
-    "C04": "a rejected assignment keeps schema and allow_unknown in force; all entry points decide alike (expand -> validate -> commit, extracted shape); unknown rule / unknown type / normalization rule inside *of / dangling field reference are rejected at the rule set that holds them, and an ill-formed field rejects the schema. PARTIAL: rejection at every depth is decided by the corruption oracle.",
+    "C04": "a rejected assignment keeps schema and allow_unknown in force; all entry points decide alike (expand -> validate -> commit, extracted shape); unknown rule / unknown type / normalization rule inside *of / dangling field reference are rejected at the rule set that holds them; a rejected rules set rejects every rules set holding it at a recursion position of the documented grammar (items, keysrules, valuesrules, *of definitions, allow_unknown rule sets, list- and dict-schemas), hence by induction on the nesting a corruption at ANY depth of the inline structure rejects the schema (corrupted_is_rejected). PARTIAL: positions behind registry references, and that the real meta-schema is this grammar, are decided by the differential run and the corruption oracle.",
     "C05": "every write site extracted from the normalization functions is at depth 0 of an owned copy or re-binds the nested member to a copy first, hence no run of the site machine writes into a caller- or schema-owned object; a depth-1 site without the copy is refuted.",
     "C06": "verdict iff no errors; validated() is None iff the verdict is False (always_return_document variant too); normalized() is None iff normalization errors; validate and normalized share processed document and normalization errors. PARTIAL: the composition law is decided by the oracle.",
     "C07": "the attributes reset by the extracted validate() prologue and __init_processing cover the per-call read sets, and any processing function that reads per-call attributes only through them yields, after ANY history, what a fresh instance yields.",
@@ -67,11 +67,11 @@ PROVED = {
     "C10": "child configuration inherits every option and both registries; the root document is the outermost one at every depth; at each of the five sites the filed children are exactly the child validator's errors; bubbling edits schema paths only; update is forwarded; by induction over the whole model every recorded error strictly extends the validator's document path. PARTIAL: equality with standalone validation is decided by the oracle.",
     "C11": "for ARBITRARY error lists the tree returns at every path exactly the errors with that path incl. nested children, holds nothing else, has a node exactly for prefixes of stored paths, is empty iff no errors, and look-ups by definition agree; for validator outputs the tree content is the flattening.",
     "C12": "document paths extend the validator's path; code and rule come from one definition; value and constraint are the field's value and the resolved rule's constraint; children iff group definition. PARTIAL: schema-path resolution is decided by the oracle.",
-    "C13": "add() deep-copies first (extracted shape), rendering is a function of the error list and leaves it untouched, one insertion adds one message, a leaf error adds it under its document path only. PARTIAL: nested *of placement is decided by the diff against the real handler.",
+    "C13": "add() deep-copies first (extracted shape), rendering is a function of the error list and leaves it untouched, one insertion adds one message, a leaf error adds it under its document path only, and for error forests of ANY nesting the number of rendered messages is: one per non-group error, one per *of error plus what its definitions' errors contribute, for a group error what its children contribute (render_count). PARTIAL: WHERE nested messages are placed is decided by the node-by-node diff against the real handler.",
     "C14": "contexts that differ only in HOW field rule sets are given (inline or by name resolving to the same rules) file the same errors, evaluate excludes alike, inherit the same *of rules and compute the same required set. PARTIAL: whole-schema substitution at depth is decided by the oracle.",
     "C15": "canonical schemas of any nesting are fixed points of expand through every recursion position; an <of>_<rule> key expands to the documented list, split at the first underscore. PARTIAL: equality of outcomes is decided by the variant oracle on the real code.",
     "C16": "per-class cache and same-class child factory (extracted facts); a child inherits the whole configuration; a rule dispatches to the same handler at every depth. PARTIAL: Python-level subclass isolation is decided by the oracle.",
-    "C17": "the defaults work-list terminates within n(n+1)+1 iterations for ARBITRARY setters; an exception other than KeyError is local to its field. PARTIAL: the least-fixpoint characterisation is decided by the graph oracle.",
+    "C17": "the defaults work-list terminates within n(n+1)+1 iterations for ARBITRARY setters; an exception other than KeyError is local to its field; the loop in the source is the modelled one (extracted shape tokens); and the LEAST FIXPOINT: for dependency-graph setters over any number of fields, any graph, any fields already present and any order of the pending list, exactly the obtainable fields end up set and exactly the pending fields that are not resolvable carry the error at their own path; two orders give the same result (wl_least_fixpoint, default_setters_least_fixpoint, order_irrelevant). PARTIAL: the VALUES the set fields receive are decided by the graph oracle.",
     "C18": "non-interference over the interleaving semantics for benign shared operations; the lazy class is published complete (extracted shape); expansion of canonical schemas writes equal values; refutation schedules for the shared shorthand literal. PARTIAL by nature: preemption inside a line and C-level effects are outside any model.",
 }
 NOTE = ("Trusted: Coq 8.16.1 kernel (vm_compute, no native_compute, no axioms: Print Assumptions closed) for the theorems listed in the evidence; hand-written models bound to the code only by the correspondence runs; translator/translate.py (fail-closed) for the extracted facts; "
